@@ -8,6 +8,7 @@ use narsese::conversion::string::impl_enum::NarseseFormat as EnumFormat;
 use narsese::conversion::string::impl_lexical::format_instances as lf;
 use narsese::conversion::string::impl_lexical::NarseseFormat as LexFormat;
 use nar_dev_utils::{PrefixMatch, SuffixMatch};
+use narsese::conversion::string::typst_formatter as ty;
 use std::fmt::Write;
 
 fn js(s: &str) -> String {
@@ -123,11 +124,76 @@ fn dump_lex(name: &str, f: &LexFormat, s: &mut String) {
     write!(s, "  }}").unwrap();
 }
 
+
+/// the markup constants of typst_formatter/definition.rs, by name (second source of translator table T6)
+fn dump_typst(s: &mut String) {
+    let strs: Vec<(&str, &str)> = vec![
+        ("TERM_PREFIX_WORD", ty::TERM_PREFIX_WORD),
+        ("TERM_PREFIX_PLACEHOLDER", ty::TERM_PREFIX_PLACEHOLDER),
+        ("TERM_PREFIX_I_VAR", ty::TERM_PREFIX_I_VAR),
+        ("TERM_PREFIX_D_VAR", ty::TERM_PREFIX_D_VAR),
+        ("TERM_PREFIX_Q_VAR", ty::TERM_PREFIX_Q_VAR),
+        ("TERM_PREFIX_INTERVAL", ty::TERM_PREFIX_INTERVAL),
+        ("TERM_PREFIX_OPERATOR", ty::TERM_PREFIX_OPERATOR),
+        ("SEPARATOR_COMPOUND", ty::SEPARATOR_COMPOUND),
+        ("SEPARATOR_STATEMENT", ty::SEPARATOR_STATEMENT),
+        ("SEPARATOR_ITEM", ty::SEPARATOR_ITEM),
+        ("SEPARATOR_TRUTH", ty::SEPARATOR_TRUTH),
+        ("SEPARATOR_BUDGET", ty::SEPARATOR_BUDGET),
+        ("CONNECTER_EXT_INTERSECT", ty::CONNECTER_EXT_INTERSECT),
+        ("CONNECTER_INT_INTERSECT", ty::CONNECTER_INT_INTERSECT),
+        ("CONNECTER_EXT_DIFFERENCE", ty::CONNECTER_EXT_DIFFERENCE),
+        ("CONNECTER_INT_DIFFERENCE", ty::CONNECTER_INT_DIFFERENCE),
+        ("CONNECTER_PRODUCT", ty::CONNECTER_PRODUCT),
+        ("CONNECTER_EXT_IMAGE", ty::CONNECTER_EXT_IMAGE),
+        ("CONNECTER_INT_IMAGE", ty::CONNECTER_INT_IMAGE),
+        ("CONNECTER_CONJUNCTION", ty::CONNECTER_CONJUNCTION),
+        ("CONNECTER_DISJUNCTION", ty::CONNECTER_DISJUNCTION),
+        ("CONNECTER_NEGATION", ty::CONNECTER_NEGATION),
+        ("CONNECTER_SEQ_CONJUNCTION", ty::CONNECTER_SEQ_CONJUNCTION),
+        ("CONNECTER_PAR_CONJUNCTION", ty::CONNECTER_PAR_CONJUNCTION),
+        ("COPULA_INHERITANCE", ty::COPULA_INHERITANCE),
+        ("COPULA_SIMILARITY", ty::COPULA_SIMILARITY),
+        ("COPULA_IMPLICATION", ty::COPULA_IMPLICATION),
+        ("COPULA_EQUIVALENCE", ty::COPULA_EQUIVALENCE),
+        ("COPULA_INSTANCE", ty::COPULA_INSTANCE),
+        ("COPULA_PROPERTY", ty::COPULA_PROPERTY),
+        ("COPULA_INSTANCE_PROPERTY", ty::COPULA_INSTANCE_PROPERTY),
+        ("COPULA_IMPLICATION_PREDICTIVE", ty::COPULA_IMPLICATION_PREDICTIVE),
+        ("COPULA_IMPLICATION_CONCURRENT", ty::COPULA_IMPLICATION_CONCURRENT),
+        ("COPULA_IMPLICATION_RETROSPECTIVE", ty::COPULA_IMPLICATION_RETROSPECTIVE),
+        ("COPULA_EQUIVALENCE_PREDICTIVE", ty::COPULA_EQUIVALENCE_PREDICTIVE),
+        ("COPULA_EQUIVALENCE_CONCURRENT", ty::COPULA_EQUIVALENCE_CONCURRENT),
+        ("COPULA_EQUIVALENCE_RETROSPECTIVE", ty::COPULA_EQUIVALENCE_RETROSPECTIVE),
+        ("STAMP_ETERNAL", ty::STAMP_ETERNAL),
+        ("STAMP_PAST", ty::STAMP_PAST),
+        ("STAMP_PRESENT", ty::STAMP_PRESENT),
+        ("STAMP_FUTURE", ty::STAMP_FUTURE),
+        ("STAMP_FIXED", ty::STAMP_FIXED),
+        ("PUNCTUATION_JUDGEMENT", ty::PUNCTUATION_JUDGEMENT),
+        ("PUNCTUATION_GOAL", ty::PUNCTUATION_GOAL),
+        ("PUNCTUATION_QUESTION", ty::PUNCTUATION_QUESTION),
+        ("PUNCTUATION_QUEST", ty::PUNCTUATION_QUEST),
+    ];
+    let pairs: Vec<(&str, (&str, &str))> = vec![
+        ("BRACKETS_COMPOUND", ty::BRACKETS_COMPOUND),
+        ("BRACKETS_EXT_SET", ty::BRACKETS_EXT_SET),
+        ("BRACKETS_INT_SET", ty::BRACKETS_INT_SET),
+        ("BRACKETS_STATEMENT", ty::BRACKETS_STATEMENT),
+        ("BRACKETS_TRUTH", ty::BRACKETS_TRUTH),
+        ("BRACKETS_BUDGET", ty::BRACKETS_BUDGET),
+    ];
+    let mut items: Vec<String> = strs.iter().map(|(k, v)| format!("\"{}\": {}", k, js(v))).collect();
+    items.extend(pairs.iter().map(|(k, v)| format!("\"{}\": {}", k, jpair(v.0, v.1))));
+    writeln!(s, " \"typst\": {{{}}},", items.join(", ")).unwrap();
+}
+
 pub fn dump(path: &str) -> std::io::Result<()> {
     let mut s = String::new();
     writeln!(s, "{{").unwrap();
     writeln!(s, " \"alnum\": {},", jranges(|c| c.is_alphanumeric())).unwrap();
     writeln!(s, " \"whitespace\": {},", jranges(|c| c.is_whitespace())).unwrap();
+    dump_typst(&mut s);
     writeln!(s, " \"enum\": {{").unwrap();
     dump_enum("FORMAT_ASCII", &ef::FORMAT_ASCII, &mut s);
     writeln!(s, ",").unwrap();
